@@ -98,6 +98,8 @@ func c12Boundaries(fd protoreflect.FieldDescriptor, top bool) []c12LV {
 		} else if len(enc) > 4 {
 			out = append(out, enc[:4]...)
 		}
+		// words of the domain the messages describe
+		out = append(out, c12SweepWords(fd, top)...)
 		return out
 	case protoreflect.BytesKind:
 		c12EncInit()
@@ -434,6 +436,35 @@ var (
 	c12LenClasses = [][]int{{0}, {1, 2, 3, 5, 8, 16}, {127, 128, 129}, {1023, 1024, 1025}, {4095, 4096, 4097}, {16383, 16384, 16385}, {65535, 65536, 70000}}
 )
 
+// c12GenWord draws a domain word: half of the time (when the field belongs to a domain)
+// one of its own domain's spellings, otherwise any word of the pool.
+func c12GenWord(t *rapid.T, fd protoreflect.FieldDescriptor) C12Val {
+	c12WordsInit()
+	pool := c12WordPool
+	if own := c12OwnWordsCached(fd); len(own) > 0 && rapid.Bool().Draw(t, "own-domain") {
+		pool = own
+	}
+	// two small draws: close to uniform over the pool
+	g := (len(pool) + 7) / 8
+	return C12Val{S: pool[(rapid.IntRange(0, g-1).Draw(t, "wordgroup")*8+c12Gen8.Draw(t, "word"))%len(pool)]}
+}
+
+var c12OwnCache = map[protoreflect.FullName][]string{}
+
+func c12OwnWordsCached(fd protoreflect.FieldDescriptor) []string {
+	c12CountMu.Lock()
+	own, ok := c12OwnCache[fd.FullName()]
+	c12CountMu.Unlock()
+	if ok {
+		return own
+	}
+	own = c12OwnWords(fd)
+	c12CountMu.Lock()
+	c12OwnCache[fd.FullName()] = own
+	c12CountMu.Unlock()
+	return own
+}
+
 // c12GenEncLike draws a value that looks like an encoded message: half of the time one of
 // the directed values, otherwise any value of the pool.
 func c12GenEncLike(t *rapid.T, fd protoreflect.FieldDescriptor) C12Val {
@@ -461,12 +492,14 @@ func c12GenScalar(t *rapid.T, fd protoreflect.FieldDescriptor) C12Val {
 	case protoreflect.BoolKind:
 		return C12Val{B: c12GenBool.Draw(t, "b")}
 	case protoreflect.StringKind:
-		// 0-1 boundary, 2-3 short ASCII, 4 unicode, 5-6 length class, 7 looks like an encoding
+		// 0-1 boundary, 2 short ASCII, 3 domain word, 4 unicode, 5-6 length class, 7 looks like an encoding
 		switch c12Gen8.Draw(t, "strmode") {
 		case 0, 1:
 			return bnd()
-		case 2, 3:
+		case 2:
 			return C12Val{S: c12GenAscii.Draw(t, "s")}
+		case 3:
+			return c12GenWord(t, fd)
 		case 4:
 			return C12Val{S: strings.ToValidUTF8(c12GenUni.Draw(t, "s"), "?")}
 		case 7:
